@@ -195,13 +195,10 @@ func (s *Session) listen() {
 			s.state.Unset(stateChannelValue)
 			s.state.Unset(stateChannelUpdated)
 			s.state.Unset(stateChannel)
-			select {
-			case <-s.ctx.Done():
-				// Base context is canceled, so let's add fake timeout context to
-				// replace this one. 10 seconds seems fair.
-				s.ctx, z = context.WithTimeout(context.Background(), spawnDefaultTime)
-			default:
-			}
+			// The base context is canceled or can be canceled at any point of the
+			// final exchange (which would drop the Shutdown Packet), so let's add
+			// fake timeout context to replace this one. 10 seconds seems fair.
+			s.ctx, z = context.WithTimeout(context.Background(), spawnDefaultTime)
 		}
 		if s.host.Unwrap(); s.swap != nil {
 			if s.p, s.swap = s.swap, nil; cout.Enabled {
@@ -238,7 +235,9 @@ func (s *Session) listen() {
 		c, err := s.p.Connect(s.ctx, s.host.String())
 		s.host.Wrap()
 		if e = false; err != nil {
-			if s.state.Closing() {
+			// Stop only when this was the final exchange: a Connect canceled with
+			// the base context must not skip the Shutdown Packet.
+			if s.state.Shutdown() {
 				break
 			}
 			if cout.Enabled {
